@@ -85,6 +85,7 @@ type vfC09World struct {
 	returned bool
 	panicked string
 	rootGoid string // the goroutine running dispatchConnection on this world's peer connection
+	lastBusy string // goroutines of this connection that were neither finished nor parked in a scripted Read at the last settle check
 	// target script
 	dialMode   string // ok | fail | wfail
 	reply      []byte
@@ -561,11 +562,16 @@ func (w *vfC09World) waitSettled(grace, max time.Duration) (unsettled bool) {
 				// connections (e.g. a prefix write handed to a goroutine that has not run yet)
 				root := w.rootGoid
 				w.mu.Unlock()
-				quiet, _ := vfC09OthersQuiet("", root)
-				if !quiet {
-					runtime.Gosched()
+				// (the ticker's Broadcast that woke this goroutine also woke the parked readers: they are runnable for a
+				// moment before they park again - poll, yielding, instead of judging the first glance)
+				quiet, busy := false, ""
+				for i := 0; i < 400 && !quiet; i++ {
+					if quiet, busy = vfC09OthersQuiet("", root); !quiet {
+						runtime.Gosched()
+					}
 				}
 				w.mu.Lock()
+				w.lastBusy = busy
 				if quiet && w.settled() {
 					return false
 				}
@@ -604,6 +610,7 @@ type vfC09Obs struct {
 	FinDials          int  // redirect dials over the whole life of the connection (phase 1 + after the hang-up)
 	FinRet            bool // dispatchConnection had returned at the end of phase 2
 	PeerWFailed       bool // the scripted write failure was hit
+	Busy              string
 	TargetSched       string // how the first Write on the target connection was scheduled (ordering window of goWeb)
 }
 
@@ -621,6 +628,7 @@ func vfC09RunScenarioX(sta *State, chunks [][]byte, eof bool, dialMode string, r
 	var o vfC09Obs
 	o.Unsettled = w.waitSettled(150*time.Millisecond, 10*time.Second)
 	w.mu.Lock()
+	o.Busy = w.lastBusy
 	o.Ret = w.returned
 	o.Dials = w.dials
 	o.DialAddr = w.dialAddr
@@ -699,6 +707,9 @@ func (o vfC09Obs) String() string {
 	}
 	if o.TargetSched != "" {
 		s += " tsched=" + o.TargetSched
+	}
+	if o.Unsettled && o.Busy != "" {
+		s += " busy=" + strings.ReplaceAll(strings.TrimSpace(o.Busy), " ", ",")
 	}
 	if o.Panicked != "" {
 		s += " PANIC=" + strings.ReplaceAll(o.Panicked, " ", "_")
